@@ -180,7 +180,7 @@ PROPS['C15'] = {
     'parts': [{'src': 'harness/scoped.cpp', 'prefix': 'C15/', 'variants': ['g17'], 'quick_variants': ['g17O0'], 'defs': ['VERIF_SUB=%d' % i]} for i in range(3)],
     'rule': 'BFS over histories on 2 targets and 3 remover slots (CallbackList, EventDispatcher, EventQueue): construct on target / default-construct, append/prepend/insert through a remover, direct append, direct removal from the target of a listener added through a remover or directly (the record the remover keeps expires), remove through a remover (owned / not owned / stale handle), reset, setDispatcher/setCallbackList (same and other target), move construction, move assignment into empty and non-empty removers, swap, destroy, destroy-all; after every operation both targets are triggered and the listeners that run compared with the model; listeners a move-assignment destination was responsible for may be detached at once or later but must be gone when every remover involved is gone',
     'assumptions': H_ASSUME + ['a moved-from remover is only destroyed, reset, re-targeted, assigned to or swapped (adding through it is not part of the alphabet)'],
-    'bounds': {'quick': '<=3 listeners, depth 4-5', 'thorough': 'depth 8 (CallbackList with the injected mutex: 9)'},
+    'bounds': {'quick': '<=3 listeners, depth 4-5', 'thorough': 'depth 8 (SpinLock unit: 7)'},
     'deadline': {'quick': 170, 'thorough': 1700},
 }
 
